@@ -294,6 +294,15 @@ def check_C18(chk):
     chk.coverage["mmap_failure_scenarios"] = [(r["what"], r["len"], r["outcome"]) for r in mm]
     if len(mm) < 6:
         chk.failing_input("the failing-mmap scenarios did not complete (rc=%s): %s" % (mrc, merr[-300:]), {"rc": mrc}, key="mmapfail:incomplete")
+    # the model (Shm.create_f / clone_f / receive_f with the mapping refused): a panic exactly when something is mapped
+    mres, merrs = C.coq_eval_sharded("From Coq Require Import ZArith List Bool.\nFrom IPC Require Import Shm.\nOpen Scope Z_scope.\n",
+                                     [(i, "mmapfail_panics %d" % r["len"]) for i, r in enumerate(mm)], lambda p: "Eval vm_compute in (%d, %s)." % p, "c18mmap", shard=40)
+    mbad = [r for i, r in enumerate(mm) if (mres.get(i) == "true") != (r["outcome"] in ("panic", "error"))]
+    chk.coverage["mmap_failure_model_mismatches"] = len(mbad)
+    if merrs:
+        chk.unproved("model evaluation (coqc on the failing-mmap cases) failed", merrs[0][-1500:])
+    if mbad and all(r["outcome"] in ("panic", "error", "intact") for r in mm):
+        chk.unproved("correspondence Shm.mmapfail_panics: outcome of an operation whose mmap fails differs from the model on %d of %d cases" % (len(mbad), len(mm)), {"observed": mbad[0]})
     for r in mm:
         if r["outcome"] not in ("panic", "error", "intact"):
             chk.failing_input("with mmap failing (ENOMEM) %s of a %d-byte region %s" % (r["what"], r["len"],
